@@ -171,8 +171,16 @@ DESCRIPTIONS = [
 def with_descriptions(text, desc):
     out = []
     phase = None
+    here = None
     for line in text.split('\n'):
         st = line.strip()
+        if here is not None:  # inside a here-document
+            if st == here:
+                here = None
+            out.append(line)
+            continue
+        if '<<' in st:
+            here = st.rsplit('<<', 1)[1].strip()
         if st.startswith('[') and st.endswith(']'):
             phase = st[1:-1]
         elif st and phase not in (None, 'act') and not st.startswith('including') and not st.startswith('#'):
@@ -226,6 +234,16 @@ def endings(code, status):
          ('executed', 'VALIDATION_ERROR', False, None)),
         ('conf-phase validation error before the status line', '[conf]\nhome = does-not-exist-c02\n' + conf + act, {}, [],
          ('executed', 'VALIDATION_ERROR', False, None)),
+    ]
+    both = "sh -c 'echo helper-on-stdout; echo helper-on-stderr >&2; exit 3'"
+    es += [
+        # programs run as TEXT SOURCES by instructions write on both channels: nothing of it may reach the program's own output
+        ('pass, with helper programs writing on both channels', conf + '[setup]\nfile e.txt = -stderr-from -ignore-exit-code % ' + both +
+         '\nfile o.txt = -stdout-from -ignore-exit-code % ' + both + '\nrun -ignore-exit-code % ' + both + '\n' + act +
+         '[assert]\nexit-code == %d\ncontents e.txt : equals <<EOF\nhelper-on-stderr\nEOF\n' % code, {}, [], verdict(None)),
+        ('failing assertion, with helper programs writing on both channels', conf + act +
+         '[before-assert]\nfile e.txt = -stderr-from -ignore-exit-code % ' + both + '\n[assert]\nexit-code == ' + str(other) + '\n[cleanup]\nfile o.txt = -stdout-from -ignore-exit-code % ' + both + '\n',
+         {}, [], verdict('FAIL')),
     ]
     if status != 'SKIP':
         es += [
@@ -301,6 +319,33 @@ def run(ctx, res):
                     for fn, content in files.items():
                         open(os.path.join(d, fn), 'w').write(content)
                     pr = impl.run_main(mp, margs + extra + ['test.case'], d, d)
+                    runs = [('in process', pr)]
+                    if ('helper programs' in name and ' / ' not in name and (ci == 0 or not ctx.quick)) or rng.chance(0.004 if ctx.quick else 0.01):
+                        # the same through the real entry point, as a process (what a user runs; output inherited by children
+                        # of the program is only visible this way)
+                        runs.append(('process', impl.run_cli(margs + extra + ['test.case'], d, sbx)))
+                    for how, pr in runs:
+                      if pr.exception is not None:
+                        res.prop_failures.append(Failure('property', {'ending': name, 'status': status, 'mode': mode, 'atc_exit': code,
+                                                                      'case': text, 'run as': how},
+                                                         'exception escaped MainProgram.execute / the process did not end: %r' % pr.exception))
+                        continue
+                      obs = (pr.exit_code, classify_out(pr.out, lambda l: l.startswith(sbx + os.sep)), err_ident_of(pr.err),
+                             pr.err.startswith('ATCERR\n'))
+                      cases.append('(C02Case %s %s %s)' % (mode, c_result(r), c_report(*obs)))
+                      meta.append({'ending': name, 'status': status, 'mode': mode, 'atc_exit': code, 'case': text, 'run as': how,
+                                   'argv': margs + extra + ['test.case'], 'constructed_result': r,
+                                   'observed': {'exit': pr.exit_code, 'stdout': pr.out[:300], 'stderr': pr.err[:300]}})
+                      res.count('run as: ' + how)
+                    pr = runs[0][1]
+                    if pr.exception is not None:
+                        continue
+                    res.count('mode ' + mode)
+                    res.count('ending: ' + name)
+                    if not (name == 'pass' and mode == 'Normal'):
+                        res.nontrivial.add((name, status, mode, code))
+                    shutil.rmtree(d, ignore_errors=True)
+                    continue
                     if pr.exception is not None:
                         res.prop_failures.append(Failure('property', {'ending': name, 'status': status, 'mode': mode, 'atc_exit': code,
                                                                       'case': text},
@@ -328,11 +373,17 @@ def run(ctx, res):
                 usage.append(margs + [opt, val, 'ok.case'])
     for val in ('', ' ', "'unbalanced"):
         usage.append(['suite', '--actor', val, 'ok.suite'])
+    # a FILE argument that cannot be a file: below a regular file, a dangling link, (--suite) a directory
+    for margs in ([], ['--keep'], ['--act']):
+        usage += [margs + ['ok.case/x.case'], margs + ['--suite', 'ok.case/s.suite', 'ok.case'], margs + ['dangling.case'],
+                  margs + ['--suite', 'missing.suite', 'ok.case'], margs + ['no-such-dir/x.case']]
+    usage += [['suite', 'ok.case/x.suite'], ['suite', 'missing.suite'], ['symbol', 'ok.case/x.case'], ['symbol', 'missing.case']]
     for ui, argv in enumerate(usage):
         d = os.path.join(root, 'u%d' % ui)
         os.makedirs(d)
         open(os.path.join(d, 'ok.case'), 'w').write('[act]\n' + atc_line(0) + '\n')
         open(os.path.join(d, 'ok.suite'), 'w').write('[cases]\nok.case\n')
+        os.symlink('no-such-target-c02', os.path.join(d, 'dangling.case'))
         pr = impl.run_main(mp, argv, d, d)
         if pr.exception is not None:
             res.prop_failures.append(Failure('property', {'argv': argv}, 'exception escaped: %r' % pr.exception))
